@@ -4,6 +4,8 @@ import F1Verif.Drive.Progress
 import F1Verif.Drive.Handle
 import F1Verif.Drive.Staged
 import F1Verif.Drive.Jitter
+import F1Verif.Drive.Labels
+import F1Verif.Drive.Iteration
 /-!
 Line-protocol driver (`f1model`). One case per line on stdin:
 
@@ -18,6 +20,10 @@ def dispatch (op : String) : Option (List String → List String → Option (Str
   match op with
   | "verdict" => some verdict
   | "dist" => some dist
+  | "iter.seq" => some iterSeq
+  | "iter.stress" => some idsSpec
+  | "pool.ids" => some idsSpec
+  | "labels" => some labels
   | "jitter" => some jitter
   | "staged" => some staged
   | "ramp" => some ramp
